@@ -257,7 +257,7 @@ func c16(r *rep.Run) {
 		max = 8
 		r.SetBudget(1800e9)
 	}
-	r.Rule = "every and/or/not/if/compare/registered-operator tree up to the node bound with pairwise distinct variables and with every two same-typed variables merged into one (repeated mentions), plus wide and/or nodes of 2..40 operands (flat and produced by flattening) with tied costs; cost maps: every single entry (each variable, each operator name, the `variable` and `operator` class defaults) at every rung of the ladder {-100, 0, 0.5, 5, 1e3, 1e9}, alone and next to one other priced name (at -100, 1e3 and, for the first name, 5e6), and EVERY pair of maps differing in that one entry (lo < hi); other optimisations all off and all on, and (trees below the node bound) with two variable names registered under ONE key. Oracles on the parsed Dump trees: (a) Reordering-on tree == Reordering-off tree up to permutation of and/or operand lists only; (b) siblings of identical shape after replacing variables by their price keep source order (stability, no cost formula needed); (c) raising an entry never moves an operand mentioning it ahead of a sibling that does not; (d) at 1e9 every mentioning operand follows every non-mentioning one; (e) siblings not mentioning the entry keep their relative order across the two maps. non-trivial = (program, map) pairs in which Reordering actually changed an order"
+	r.Rule = "every and/or/not/if/compare/registered-operator tree up to the node bound with pairwise distinct variables (incl. a zero-operand registered operator and string literals spelled like priced names) and with every two same-typed variables merged into one (repeated mentions), plus wide and/or nodes of 2..40 operands (flat and produced by flattening) with tied costs; cost maps: every single entry (each variable, each operator name, the `variable` and `operator` class defaults) at every rung of the ladder {-100, 0, 0.5, 5, 1e3, 1e9}, alone and next to one other priced name (at -100, 1e3 and, for the first name, 5e6), and EVERY pair of maps differing in that one entry (lo < hi); other optimisations all off and all on, and (trees below the node bound) with two variable names registered under ONE key. Oracles on the parsed Dump trees: (a) Reordering-on tree == Reordering-off tree up to permutation of and/or operand lists only; (b) siblings of identical shape after replacing variables by their price keep source order (stability, no cost formula needed); (c) raising an entry never moves an operand mentioning it ahead of a sibling that does not; (d) at 1e9 every mentioning operand follows every non-mentioning one; (e) siblings not mentioning the entry keep their relative order across the two maps. non-trivial = (program, map) pairs in which Reordering actually changed an order"
 	r.Assume = []string{"'mentions' means: contains the variable / an application of the operator (for the class defaults: one without an entry of its own)",
 		"ladder of 6 cost values, not all float64 values; NaN and infinities are covered under C02 (meaning) only, since the statement's order laws presuppose comparable costs"}
 	r.Cov["bounds"] = map[string]int{"max_nodes": max}
@@ -286,6 +286,25 @@ func c16(r *rep.Run) {
 			MkProg(term.Op("or", B, term.Op("p", B, b()), o(), term.Op("not", B, b()), o(), b())),
 			MkProg(term.Op("and", B, term.Op("<", B, n(), term.Var("n", I)), term.Op("=", B, term.Var("n", I), term.Const(2)), o(), term.Op("=", B, n(), n()))),
 			MkProg(term.Op("and", B, term.Op("or", B, b(), o()), o(), term.Op("or", B, o(), b()))))
+	}
+	// string literals spelled like names that can be priced (a literal mentions nothing)
+	{
+		sv := func() *term.Term { return term.Var("s", term.TS) }
+		o := func() *term.Term { return term.Var("b", B) }
+		nv := func() *term.Term { return term.Var("n", I) }
+		progs = append(progs,
+			MkProg(term.Op("and", B, term.Op("=", B, sv(), term.Const("tag")), term.Op("=", B, nv(), term.Const(1)), o())),
+			MkProg(term.Op("or", B, o(), term.Op("=", B, sv(), term.Const("tag")), term.Op("=", B, sv(), term.Const("other")))),
+			MkProg(term.Op("and", B, term.Op("=", B, term.Const("tag"), term.Const("tag")), o(), term.Op("not", B, term.Op("=", B, sv(), term.Const("variable"))))),
+			MkProg(term.Op("and", B, term.Op("=", B, sv(), term.Const("operator")), term.Op("p", B, o()), term.Op("=", B, sv(), term.Const("p")))))
+		// a zero-operand registered operator (it can be priced like any other)
+		z := func() *term.Term { return term.Op("t0", B) }
+		progs = append(progs,
+			MkProg(term.Op("and", B, z(), o(), o())),
+			MkProg(term.Op("or", B, o(), z(), term.Op("p", B, o()))),
+			MkProg(term.Op("and", B, o(), term.Op("not", B, z()), o())),
+			MkProg(term.Op("and", B, term.Op("or", B, z(), o()), o(), term.Op("p", B, z()))),
+			MkProg(term.Op("or", B, term.Op("=", B, nv(), term.Const(1)), z())))
 	}
 	// wide families
 	for _, k := range []int{2, 3, 5, 8, 11, 12, 13, 14, 16, 20, 25, 33, 40} {
@@ -345,6 +364,13 @@ func c16(r *rep.Run) {
 		if len(names) > 9 {
 			names = append(names[:5], names[len(names)-4:]...) // wide families: first and last names
 		}
+		// the TEXT of every string literal is a name too: pricing it must move nothing
+		p.T.Walk(func(n *term.Term) {
+			if str, isStr := n.Val.(string); n.K == term.KConst && isStr && str != "" && !nameSet[str] && len(names) < 14 {
+				nameSet[str] = true
+				names = append(names, str)
+			}
+		})
 		// other spellings of the operators that occur: pricing a name the
 		// program does not mention must not move anything
 		for _, n := range append([]string{}, names...) {
